@@ -103,7 +103,7 @@ Shape(i) ==
       [] i = 5 -> [type |-> "m.room.member", sk |-> "user", redacts |-> "none", tpi |-> StdTpi,
                    con |-> ("membership" :> "v1" @@ "join_authorised_via_users_server" :> "v1"
                             @@ NestedKey :> "obj")]
-      [] i = 6 -> [type |-> "m.room.member", sk |-> "user", redacts |-> "none", tpi |-> NoTpi,
+      [] i = 6 -> [type |-> "m.room.member", sk |-> "self", redacts |-> "none", tpi |-> NoTpi,   \* state key = sender
                    con |-> ("membership" :> "v1")]
       [] i = 7 -> [type |-> "m.room.create", sk |-> "empty", redacts |-> "none", tpi |-> NoTpi,
                    con |-> ("creator" :> "v1" @@ "room_version" :> "v1" @@ "m.federate" :> "v1")]
@@ -134,11 +134,15 @@ AllShapes == 1..16
 ShapesOf(v) == IF DomainlessRoomIDs(v) THEN ShapeIds ELSE ShapeIds \ {13, 14}
 
 Variant(w) ==
-    CASE w = 1 -> [prev |-> "p1", auth |-> "a2", depth |-> "d2", unsigned |-> "none"]
-      [] w = 2 -> [prev |-> "p0", auth |-> "a0", depth |-> "d1", unsigned |-> "u1"]
-      [] w = 3 -> [prev |-> "p2", auth |-> "a1", depth |-> "d3", unsigned |-> "none"]
-      [] w = 4 -> [prev |-> "p2", auth |-> "a2", depth |-> "d2", unsigned |-> "u2"]
-AllVariants == 1..4
+    CASE w = 1 -> [prev |-> "p1", auth |-> "a2", depth |-> "d2", unsigned |-> "none", ts |-> "t1"]
+      [] w = 2 -> [prev |-> "p0", auth |-> "a0", depth |-> "d1", unsigned |-> "u1", ts |-> "t1"]
+      [] w = 3 -> [prev |-> "p2", auth |-> "a1", depth |-> "d3", unsigned |-> "none", ts |-> "t1"]
+      [] w = 4 -> [prev |-> "p2", auth |-> "a2", depth |-> "d2", unsigned |-> "u2", ts |-> "t1"]
+      \* boundaries: lists absent in the proto-event (not merely empty), depth 0, unsigned {}, origin_server_ts 0
+      [] w = 5 -> [prev |-> "pn", auth |-> "an", depth |-> "d0", unsigned |-> "u0", ts |-> "t0"]
+      \* multiplicity: the same event referenced twice in prev_events and in auth_events
+      [] w = 6 -> [prev |-> "pd", auth |-> "ad", depth |-> "d3", unsigned |-> "none", ts |-> "t1"]
+AllVariants == 1..6
 
 \* --- numbers in the content (family num) --------------------------------------------------------------
 \* Room versions 6+ ("Canonical JSON" of room version 6): an event is canonical JSON: every number is an integer
@@ -161,7 +165,7 @@ ProtoOf(i, w, n) ==
     [type |-> s.type, sk |-> s.sk, redacts |-> s.redacts, tpi |-> s.tpi, num |-> n,
      con |-> IF n = "none" THEN s.con ELSE [k \in DOMAIN s.con \cup {"zz_num"} |-> IF k = "zz_num" THEN n ELSE s.con[k]],
      prev |-> x.prev, auth |-> x.auth, depth |-> x.depth, unsigned |-> x.unsigned,
-     room |-> "r1", sender |-> "alice", ts |-> "t1", origin |-> "hs1", sigkey |-> "k1"]
+     room |-> "r1", sender |-> "alice", ts |-> x.ts, origin |-> "hs1", sigkey |-> "k1"]
 
 IsCreate(p) == p.type = "m.room.create" /\ p.sk = "empty"
 \* room versions with domainless room IDs: the create event carries no room_id (the room ID *is* its event ID)
@@ -306,7 +310,7 @@ SetPCon(p, k, val) == [p EXCEPT !.con = [x \in DOMAIN p.con \cup {k} |-> IF x = 
 
 SibProto(v, p, f) ==
     CASE f = "type" -> [p EXCEPT !.type = IF p.type = "other" THEN "other2" ELSE "other"]
-      [] f = "sk" -> [p EXCEPT !.sk = IF p.sk = "none" THEN "empty" ELSE IF p.sk = "user" THEN "user2" ELSE "user"]
+      [] f = "sk" -> [p EXCEPT !.sk = IF p.sk = "none" THEN "empty" ELSE IF p.sk = "user" THEN "user2" ELSE "user"]   \* self -> user
       [] f = "con_kept" -> SetPCon(p, Pick(KeptOf(v, p)), "v2")
       [] f = "con_unkept" -> SetPCon(p, Pick(UnkeptOf(v, p)), "v2")
       [] f = "con_add" -> SetPCon(p, "zz_added", "v1")
